@@ -509,6 +509,7 @@ class Effects:
                         self.reachable(cf, seen)
             # property getters read on self / typed receivers (by name, class-family wide)
             terms = [x for ev in p.events for x in ev.data if isinstance(x, tuple)]
+            terms += [a for a, _ in p.assumptions]
             if p.retval is not None:
                 terms.append(p.retval)
             for t in terms:
